@@ -179,6 +179,60 @@ pub fn run(ctx: &Ctx) -> Report {
       report.fail("property", "create-auto-piece-length", case, format!("created torrent has piece length {pl:?}, spec {}", spec(size)));
     }
   }
+  // directories whose excluded entries (junk, hidden, glob-excluded, unfollowed symlinks) would cross a threshold if they
+  // were counted: the content size that matters is the total of the files that end up in the torrent
+  let sparse = |sb: &Sandbox, rel: &str, size: u64| {
+    sb.write(rel, b"");
+    let f = std::fs::OpenOptions::new().write(true).open(sb.path(rel)).unwrap();
+    f.set_len(size).unwrap();
+  };
+  let mib = 1u64 << 20;
+  for (i, (included, excluded, glob)) in [
+    (vec![("a.bin", 2 * mib)], vec![("Thumbs.db", 3 * mib)], None),
+    (vec![("a.bin", mib), ("sub/b.bin", mib)], vec![("junk.tmp", 7 * mib)], Some("!*.tmp")),
+    (vec![("a.bin", 2 * mib)], vec![(".hidden", 14 * mib)], None),
+    (vec![("a.bin", 2 * mib)], vec![("sub/Desktop.ini", 3 * mib), (".git/objects/pack", 9 * mib)], None),
+    (vec![("keep/a.bin", 3 * mib)], vec![("drop/b.bin", 30 * mib)], Some("keep/*")),
+    (vec![("a.bin", 4 * mib)], vec![], None),
+  ]
+  .into_iter()
+  .enumerate()
+  {
+    let sb = Sandbox::new(&ctx.work, "c15d");
+    for (rel, size) in included.iter().chain(excluded.iter()) {
+      sparse(&sb, &format!("content/{rel}"), *size);
+    }
+    let _ = std::os::unix::fs::symlink(sb.path("content/a.bin"), sb.path("content/link-not-followed"));
+    let mut args = vec!["torrent", "create", "--input", "content", "--output", "o.torrent"];
+    if let Some(g) = glob {
+      args.push("--glob");
+      args.push(g);
+    }
+    let out = Cmd::new(&ctx.imdl, &args).cwd(&sb.root).run();
+    report.case(Some(0xC15_D000_0000 + i as u64));
+    report.hit("create:auto-piece-length-with-excluded-entries");
+    let case = json!({"included": included, "excluded": excluded, "glob": glob});
+    if !out.ok() {
+      report.fail("property", "create-auto-rejected", case, format!("create without --piece-length failed: {}", out.stderr_s()));
+      continue;
+    }
+    let t = std::fs::read(sb.path("o.torrent")).ok().and_then(|t| bencode::decode(&t).ok());
+    let info = t.as_ref().and_then(|v| v.get("info"));
+    let pl = info.and_then(|i| i.get("piece length")).and_then(|p| p.as_int());
+    // the content size is what the torrent itself lists
+    let listed: Option<i128> = info.and_then(|i| match i.get("files") {
+      Some(crate::bencode::B::List(fs)) => fs.iter().map(|f| f.get("length").and_then(|l| l.as_int())).sum::<Option<i128>>(),
+      _ => i.get("length").and_then(|l| l.as_int()),
+    });
+    match (pl, listed) {
+      (Some(pl), Some(total)) => {
+        if pl != spec(total as u64) as i128 {
+          report.fail("property", "create-auto-piece-length", case, format!("torrent lists {total} bytes of content and has piece length {pl}; the table gives {}", spec(total as u64)));
+        }
+      }
+      _ => report.fail("model", "C15.create", case, "could not read the created torrent back".into()),
+    }
+  }
   report.model_requests = model.requests;
   report
 }
